@@ -31,11 +31,12 @@ theorem login_first (v : Verb) : loginFirst v.guards = true := login_first_b v (
 theorem pass_needs_user : Verb.pass.guards = [.conn [.user] false 503] := by decide
 theorem rnto_needs_rnfr : ∃ t, Verb.rnto.guards = .conn [.logged, .renameFrom] false 503 :: t := ⟨_, rfl⟩
 
-/-- **crash_only_rest** (characterises finding F1): from an invariant state, the only way a command is
-    left without any reply is `REST` with an argument that `str.isdigit()` accepts and `int()` rejects. -/
+/-- **crash_only_rest**: from an invariant state, the only way a command could be left without any reply
+    is `REST` with an argument that the handler's guard accepts and `int()` rejects
+    (that was finding F1 while the guard was `str.isdigit`; see `rest_total` below). -/
 theorem crash_only_rest (cfg : Cfg) (w : World) (s : SState) (name rest : Str) (payload : Bytes)
     (hinv : Inv cfg s) (hc : (dispatch cfg w s name rest payload).2.2.crashed = true) :
-    verbOf name = some .rest ∧ isDigit rest = true ∧ intOfDigits? rest = none := by
+    verbOf name = some .rest ∧ restAccepts rest = true ∧ intOfDigits? rest = none := by
   unfold dispatch at hc
   cases hv : verbOf name with
   | none => simp [hv] at hc
@@ -119,10 +120,30 @@ theorem crash_only_rest (cfg : Cfg) (w : World) (s : SState) (name rest : Str) (
       | abor => simp [body] at hc
       | syst => simp [body] at hc
 
-/-- F1 witness: `REST ²` (superscript two) is answered by nothing and ends the session -/
-theorem rest_superscript_crashes :
+/-- the guard of `int(rest)` as the source has it now (regenerated): `str.isdecimal` -/
+theorem rest_guard_is_isdecimal : restPredicate = "isdecimal" := by decide
+
+/-- **rest_total** (F1 repaired): what the guard accepts, `int()` accepts — REST always replies -/
+theorem rest_total (rest : Str) (h : restAccepts rest = true) : (intOfDigits? rest).isSome = true := by
+  unfold restAccepts at h
+  rw [if_pos rest_guard_is_isdecimal] at h
+  exact int_of_decimal_total rest h
+
+/-- **no_crash**: from an invariant state every command is answered -/
+theorem no_crash (cfg : Cfg) (w : World) (s : SState) (name rest : Str) (payload : Bytes) (hinv : Inv cfg s) :
+    (dispatch cfg w s name rest payload).2.2.crashed = false := by
+  cases hc : (dispatch cfg w s name rest payload).2.2.crashed with
+  | false => rfl
+  | true =>
+    obtain ⟨_, h2, h3⟩ := crash_only_rest cfg w s name rest payload hinv hc
+    have := rest_total rest h2
+    rw [h3] at this
+    simp at this
+
+/-- `REST ²` (superscript two: `isdigit` but not `isdecimal`) is answered 501 and the session lives on -/
+theorem rest_superscript_answered :
     let r := step ⟨[], none, false⟩ ⟨[], none, []⟩ {} (.line ['R', 'E', 'S', 'T', ' ', '²'] [])
-    r.2.2.crashed = true ∧ r.2.2.replies = [] ∧ r.2.1.alive = false := by
+    r.2.2.crashed = false ∧ r.2.2.replies = [501] ∧ r.2.1.alive = true := by
   decide
 
 theorem getUser_code (cfg : Cfg) (w : World) (login : Str) :
